@@ -358,13 +358,31 @@ Fixpoint render_attrs (c : pctx) (t : htable) (keys : list bstr) (buflen : Z) (s
 
 Definition child_ctx (a : attrs) : pctx := Parent (attr_get a xmlns_key).
 
+(* the loop over the children: ret = _render_stanza_recursive(child, ptr, left); _render_update(..) *)
+Section RenderList.
+  Variable f : tree -> cells -> option Z -> Z -> rres (cells * Z).
+  Fixpoint render_list (cs : list tree) (buflen : Z) (st : rstate) {struct cs} : rres rstate :=
+    match cs with
+    | [] => ROk st
+    | ch :: r =>
+        match f ch (r_buf st) (r_ptr st) (r_left st) with
+        | ROk (b, ret) => render_list r buflen (render_update st buflen ret b)
+        | RErr e => RErr e
+        | ROOB => ROOB
+        | RCrash => RCrash
+        | RUninit => RUninit
+        end
+    end.
+End RenderList.
+
+Definition rdone (st : rstate) : rres (cells * Z) := ROk (r_buf st, r_written st).
+
 Fixpoint render_rec (c : pctx) (t : tree) (buf : cells) (ptr : option Z) (buflen : Z) {struct t}
   : rres (cells * Z) :=
   let st0 := mkR buf ptr buflen 0 in
-  let done := fun st : rstate => ROk (r_buf st, r_written st) in
   match t with
   | Unk => RErr XMPP_EINVOP
-  | Text s => rbind (emit_escaped buflen st0 fmt_text [] s) done
+  | Text s => rbind (emit_escaped buflen st0 fmt_text [] s) rdone
   | Tag name a children =>
       rbind (emit buflen st0 (format fmt_open [name])) (fun st1 =>
       rbind (match a with
@@ -372,22 +390,11 @@ Fixpoint render_rec (c : pctx) (t : tree) (buf : cells) (ptr : option Z) (buflen
              | None => ROk st1
              end) (fun st2 =>
       match children with
-      | [] => rbind (emit buflen st2 fmt_empty) done
+      | [] => rbind (emit buflen st2 fmt_empty) rdone
       | _ :: _ =>
           rbind (emit buflen st2 fmt_gt) (fun st3 =>
-          rbind ((fix go (cs : list tree) (st : rstate) {struct cs} : rres rstate :=
-                    match cs with
-                    | [] => ROk st
-                    | ch :: r =>
-                        match render_rec (child_ctx a) ch (r_buf st) (r_ptr st) (r_left st) with
-                        | ROk (b, ret) => go r (render_update st buflen ret b)
-                        | RErr e => RErr e
-                        | ROOB => ROOB
-                        | RCrash => RCrash
-                        | RUninit => RUninit
-                        end
-                    end) children st3) (fun st4 =>
-          rbind (emit buflen st4 (format fmt_close [name])) done))
+          rbind (render_list (render_rec (child_ctx a)) children buflen st3) (fun st4 =>
+          rbind (emit buflen st4 (format fmt_close [name])) rdone))
       end))
   end.
 
